@@ -299,3 +299,103 @@ impl CacheHandler {
         out_result
     }
 }
+
+/// Verification hook: drives the cache's private functions in the order `handle_query` uses
+/// them (calculate_expiry, insert_cache_entry on a miss; get_entry on a lookup; expire for the
+/// background sweep), without the network in between.  Time is tokio's clock.
+#[cfg(feature = "verif")]
+pub mod verif {
+    use super::*;
+
+    pub struct VerifCache {
+        handler: CacheHandler,
+        cache: Cache,
+    }
+
+    /// Errors the resolver can hand to the cache; `outquery::Error` cannot be named outside.
+    pub fn verif_error(kind: u8) -> Error {
+        match kind {
+            0 => Error::OutReply(outquery::Error::Timeout),
+            1 => Error::OutReply(outquery::Error::FailedToSendMsg("verif".into())),
+            2 => Error::OutReply(outquery::Error::FailedToRecvMsg("verif".into())),
+            3 => Error::OutReply(outquery::Error::TcpConnection("verif".into())),
+            4 => Error::OutReply(outquery::Error::Parse("verif".into())),
+            5 => Error::OutReply(outquery::Error::Internal("verif".into())),
+            6 => Error::OutReply(outquery::Error::FailedToSend(std::io::Error::other("verif"))),
+            7 => Error::OutReply(outquery::Error::FailedToRecv(std::io::Error::other("verif"))),
+            _ => Error::NotAuthoritative,
+        }
+    }
+
+    impl Default for VerifCache {
+        fn default() -> Self {
+            Self::new()
+        }
+    }
+
+    impl VerifCache {
+        pub fn new() -> Self {
+            Self {
+                handler: CacheHandler {
+                    next: outquery::OutQuery::new(),
+                    cache: Arc::new(RwLock::new(Cache::new())),
+                },
+                cache: Cache::new(),
+            }
+        }
+
+        fn key(q: &dnspkt::Question, edns_do: bool, cd: bool) -> CacheKey {
+            CacheKey {
+                qname: q.qdomain.clone(),
+                qtype: q.qtype,
+                edns_do,
+                cd,
+            }
+        }
+
+        /// What `handle_query` does with a freshly resolved result.  Returns true if stored.
+        pub fn offer(
+            &mut self,
+            q: &dnspkt::Question,
+            edns_do: bool,
+            cd: bool,
+            out_result: &Result<dnspkt::DNSPkt, Error>,
+        ) -> bool {
+            let expiry = self.handler.calculate_expiry(out_result);
+            if expiry > Duration::from_secs(0) {
+                self.handler.insert_cache_entry(
+                    &mut self.cache,
+                    Self::key(q, edns_do, cd),
+                    out_result,
+                    expiry,
+                );
+                true
+            } else {
+                false
+            }
+        }
+
+        /// What `handle_query` does first: a lookup at the current (tokio) time.
+        pub fn lookup(
+            &self,
+            q: &dnspkt::Question,
+            edns_do: bool,
+            cd: bool,
+        ) -> Option<Result<dnspkt::DNSPkt, Error>> {
+            CacheHandler::get_entry(&self.cache, &Self::key(q, edns_do, cd), Instant::now())
+        }
+
+        /// One pass of the background expiry task at the current (tokio) time.
+        pub fn sweep(&mut self) {
+            CacheHandler::expire(&mut self.cache, Instant::now());
+        }
+
+        pub fn len(&self) -> usize {
+            self.cache.len()
+        }
+
+        pub fn is_empty(&self) -> bool {
+            self.cache.is_empty()
+        }
+    }
+}
